@@ -4,6 +4,7 @@ import Proofs.C14Stmt
 import Proofs.C14Conn
 import Proofs.C14Obs
 import Proofs.C14Live
+import Proofs.C14ConnLRU
 /-!
 # C14 — prepared statements (property theorems; sequential + logical core, and the session tier)
 
@@ -840,6 +841,64 @@ theorem C14_cancelled_can_return (s : PConn.State κ) (c : Nat) (cl : Caller κ)
   rcases hpc with ⟨f, hpc⟩ | ⟨a, hpc⟩ <;>
     exact ⟨{ s with callers := s.callers.set c { cl with pc := .abandoned } },
       by simp only [PConn.step, hc, hcan, hpc, if_true], rfl, rfl⟩
+
+/-! ### the connection-level machine with the REAL cache (`PLru`: internal/lru instead of a finite map + environment evictions) -/
+
+/-- **Every schedule of the machine with the real LRU cache is a schedule of `PConn`** (the LRU's purges being
+    `PConn`'s `evict` actions) **with the same trace** - so the specification accepts it, and every theorem of this
+    section about `PConn` schedules (ids and metadata belong to the statement, single flight, failures not cached,
+    value count, contexts, no crash, ...) holds for every interleaving of executions over the real cache, for every
+    capacity (0 = unbounded, 1, ..., negative as coded). -/
+theorem C14_conn_lru_refines (cap : Int) (as : List (PLru.Action κ)) (s : PLru.State κ) (tr : List (Ev κ))
+    (h : PLru.run (PLru.init cap) as = some (s, tr)) :
+    (∃ as' : List (PConn.Action κ), PConn.run PConn.init as' = some (s.p, tr)) ∧
+    ∃ o, Obs.run (Obs.init : OState κ) tr = some o := by
+  obtain ⟨as', h'⟩ := C14ConnLRU.run_sim as _ _ _ h
+  exact ⟨⟨as', h'⟩, C14_conn_refines (b := false) as' s.p tr h'⟩
+
+/-- **The cache never exceeds its configured size, in any interleaving** - callers, flights' goroutines, server answers,
+    cancellations and UNPREPARED evictions interleaved arbitrarily over the real LRU: keys are unique, a positive
+    capacity is respected at every point, and the LRU holds exactly the entries of the finite-map cache the other
+    theorems speak about (same key ↦ same flight), so an entry purged while its PREPARE is in flight is an `evict` of
+    `PConn` and nothing else ever leaves. -/
+theorem C14_conn_lru_bound (cap : Int) (as : List (PLru.Action κ)) (s : PLru.State κ) (tr : List (Ev κ))
+    (h : PLru.run (PLru.init cap) as = some (s, tr)) :
+    s.lru.keys.Nodup ∧ s.lru.cap = cap ∧ (0 < cap → (s.lru.len : Int) ≤ cap) ∧ ∀ k, s.p.cache k = s.lru.find k := by
+  have hI0 : (PLru.init cap : PLru.State κ).lru.Inv := LRU.inv_new cap
+  obtain ⟨_, hL, hS⟩ := C14ConnLRU.run_good as _ _ _ C14ConnLRU.good_init hI0 (C14ConnLRU.sync_init cap) h
+  have hc := (C14ConnLRU.run_lru_inv as _ _ _ hI0 h).2
+  have hc' : s.lru.cap = cap := by rw [hc]; rfl
+  exact ⟨hL.1, hc', fun hp => by have := hL.2 (by rw [hc']; exact hp); rw [hc'] at this; exact this, hS⟩
+
+/-- non-vacuity: cache of ONE entry, two statements. Call 0 publishes the flight of statement 7; call 1 looks up
+    statement 8: the LRU purges 7 while its PREPARE is still in flight (R:7:0), both PREPAREs are answered, both
+    calls execute with their own ids; then call 2 executes 7 again: not cached, a second PREPARE of 7 (flight 2)
+    purges 8. The cache holds one entry at the end. -/
+example :
+    ((PLru.run (PLru.init 1 : PLru.State Nat)
+      [.call false [(7, 1)], .lookup 0, .call false [(8, 1)], .lookup 1, .spawn 0, .spawn 1,
+       .srvPrepare 0 (some ([1], 1)), .srvPrepare 1 (some ([2], 1)), .complete 0, .complete 1,
+       .observe 0 .ok, .observe 1 .ok, .finish 0, .finish 1,
+       .call false [(7, 1)], .lookup 2, .spawn 2, .srvPrepare 2 (some ([3], 1)), .complete 2, .observe 2 .ok, .finish 2]).map
+        fun r => (r.2, r.1.lru.items)) =
+    some ([.start 0 false [(7, 1)], .start 1 false [(8, 1)], .rm 7 0, .prep 0 7 (some ([1], 1)), .prep 1 8 (some ([2], 1)),
+           .exec 0 [[1]] .ok, .exec 1 [[2]] .ok, .ret 0 .ok, .ret 1 .ok,
+           .start 2 false [(7, 1)], .rm 8 1, .prep 2 7 (some ([3], 1)), .exec 2 [[3]] .ok, .ret 2 .ok], [(7, 2)]) := by decide
+
+/-- a hit promotes: capacity 2, statements 7 and 8 cached, 7 executed again, then 9 arrives: 8 (least recently USED) goes -/
+example :
+    ((PLru.run (PLru.init 2 : PLru.State Nat)
+      [.call false [(7, 0)], .lookup 0, .spawn 0, .srvPrepare 0 (some ([1], 0)), .complete 0, .observe 0 .ok, .finish 0,
+       .call false [(8, 0)], .lookup 1, .spawn 1, .srvPrepare 1 (some ([2], 0)), .complete 1, .observe 1 .ok, .finish 1,
+       .call false [(7, 0)], .lookup 2, .observe 2 .ok, .finish 2,
+       .call false [(9, 0)], .lookup 3]).map fun r => r.1.lru.items) = some [(9, 2), (7, 0)] := by decide
+
+/-- there is no environment eviction in this machine, and UNPREPARED with the cached id removes the entry from the LRU -/
+example :
+    ((PLru.run (PLru.init 2 : PLru.State Nat)
+      [.call false [(7, 0)], .lookup 0, .spawn 0, .srvPrepare 0 (some ([1], 0)), .complete 0, .observe 0 (.unprep [1]), .finish 0]).map
+        fun r => (r.2, r.1.lru.items)) =
+    some ([.start 0 false [(7, 0)], .prep 0 7 (some ([1], 0)), .exec 0 [[1]] (.unprep [1]), .rm 7 0], []) := by decide
 
 /-! non-vacuity: concrete schedules -/
 
